@@ -22,6 +22,48 @@ pub proof fn lemma_swap_remove_from<T>(t0: Seq<T>, d: int, j2: int)
     ensures ({ let r = t0.update(d, t0.last()).drop_last(); let j = if j2 == d { t0.len() - 1 } else { j2 }; 0 <= j < t0.len() && r[j2] == t0[j] && (j != d || d == t0.len() - 1) })
 {}
 
+// no value is stored twice under one (name, type): "re-inserting a record ... without duplicating it"
+pub open spec fn distinct_seq<V>(s: Seq<(V, Instant)>) -> bool { forall|i: int, j: int| 0 <= i < j < s.len() ==> s[i].0 != s[j].0 }
+pub open spec fn distinct_values<K, V>(recs: Map<K, Vec<(V, Instant)>>) -> bool { forall|k: K| recs.contains_key(k) ==> distinct_seq(#[trigger] recs[k]@) }
+pub proof fn lemma_upsert_distinct<V>(t0: Seq<(V, Instant)>, tup: (V, Instant), d: Option<int>)
+    requires distinct_seq(t0),
+        match d { Some(i) => 0 <= i < t0.len() && t0[i].0 == tup.0, None => forall|j: int| 0 <= j < t0.len() ==> t0[j].0 != tup.0 },
+    ensures distinct_seq(match d { Some(i) => t0.update(i, t0.last()).drop_last().push(tup), None => t0.push(tup) })
+{
+    match d {
+        None => {}
+        Some(dd) => {
+            let r = t0.update(dd, t0.last()).drop_last();
+            let n = r.push(tup);
+            assert forall|i: int, j: int| 0 <= i < j < n.len() implies n[i].0 != n[j].0 by {
+                lemma_swap_remove_from(t0, dd, i);
+                if j < r.len() { lemma_swap_remove_from(t0, dd, j); }
+            }
+        }
+    }
+}
+pub proof fn lemma_filter_distinct<V>(s: Seq<(V, Instant)>, pred: spec_fn((V, Instant)) -> bool)
+    requires distinct_seq(s)
+    ensures distinct_seq(s.filter(pred)), forall|x: int| 0 <= x < s.filter(pred).len() ==> s.contains(#[trigger] s.filter(pred)[x])
+    decreases s.len()
+{
+    reveal(Seq::filter);
+    if s.len() > 0 {
+        let p = s.drop_last();
+        assert(distinct_seq(p));
+        lemma_filter_distinct(p, pred);
+        let f = s.filter(pred);
+        assert forall|x: int| 0 <= x < f.len() implies s.contains(#[trigger] f[x]) by {
+            if x < p.filter(pred).len() { let w = choose|w: int| 0 <= w < p.len() && p[w] == p.filter(pred)[x]; assert(s[w] == f[x]); }
+            else { assert(s[s.len() - 1] == f[x]); }
+        }
+        if pred(s.last()) {
+            assert forall|i: int, j: int| 0 <= i < j < f.len() implies f[i].0 != f[j].0 by {
+                if j == f.len() - 1 { let w = choose|w: int| 0 <= w < p.len() && p[w] == p.filter(pred)[i]; assert(s[w].0 != s[s.len() - 1].0); }
+            }
+        }
+    }
+}
 // how upsert changes the record map of a partition: the vector under `key` loses the duplicate (if any, by swap_remove) and gains `tup` at the end
 pub open spec fn upsert_recs<K, V>(r0: Map<K, Vec<(V, Instant)>>, r1: Map<K, Vec<(V, Instant)>>, key: K, tup: (V, Instant), d: Option<int>) -> bool {
     let t0 = if r0.contains_key(key) { r0[key]@ } else { Seq::<(V, Instant)>::empty() };
@@ -32,6 +74,13 @@ pub open spec fn upsert_recs<K, V>(r0: Map<K, Vec<(V, Instant)>>, r1: Map<K, Vec
             None => r1[key]@ == t0.push(tup),
             Some(d) => 0 <= d < t0.len() && r1[key]@ == t0.update(d, t0.last()).drop_last().push(tup),
         }
+}
+spec fn recs_or_empty<K1, K2: Eq + Hash, V>(m: Map<K1, Partition<K2, V>>, k: K1) -> Map<K2, Vec<(V, Instant)>> {
+    if m.contains_key(k) { m[k].records@ } else { Map::<K2, Vec<(V, Instant)>>::empty() }
+}
+pub open spec fn dup_ok<K, V>(r0: Map<K, Vec<(V, Instant)>>, key: K, value: V, d: Option<int>) -> bool {
+    let t0 = if r0.contains_key(key) { r0[key]@ } else { Seq::<(V, Instant)>::empty() };
+    match d { Some(i) => 0 <= i < t0.len() && t0[i].0 == value, None => forall|j: int| 0 <= j < t0.len() ==> (#[trigger] t0[j]).0 != value }
 }
 pub proof fn lemma_upsert_lower<K, V>(r0: Map<K, Vec<(V, Instant)>>, r1: Map<K, Vec<(V, Instant)>>, key: K, tup: (V, Instant), d: Option<int>, x: Instant)
     requires upsert_recs(r0, r1, key, tup, d), ne_lower(r0, x), inst(x) <= inst(tup.1)
@@ -77,6 +126,7 @@ impl<K: Eq + Hash, V> Partition<K, V> {
         &&& self.size > 0
         &&& ne_lower(self.records@, self.next_expiry)
         &&& ne_attained(self.records@, self.next_expiry)
+        &&& distinct_values(self.records@)
     }
 }
 spec fn psize<K: Eq + Hash, V>() -> spec_fn(Partition<K, V>) -> nat { |p: Partition<K, V>| p.size as nat }
